@@ -316,7 +316,7 @@ def main(run):
             k_assoc(run, run.case("assoc", 2 * 10**6 + i, big=True))
     for i in run.mine({"quick": 100, "thorough": 2500}[run.tier]):
         k_cli(run, run.case("cli", i, tool=["ape", "rpe"][i % 2], fmt=["tum", "euroc"][(i // 2) % 2],
-                            force_options=["crop"] if i % 3 else ["tmax_boundary"]))
+                            force_options=["crop"] if i % 2 else ["tmax_boundary"]))
     for i in run.mine({"quick": 80, "thorough": 2000}[run.tier]):
         k_cli(run, run.case("cli", 10**6 + i, tool="traj", fmt=["tum", "euroc"][i % 2],
                             force={"use_ref": True, "sync": True, "merge": i % 3 == 0, "downsample": False, "motion_filter": False}))
